@@ -30,7 +30,7 @@ Your task: produce THREE different, independent, realistic source changes to the
      (the unmodified tree gives "217 passed" plus 2 pre-existing collection errors in tests/test_dfxp.py and tests/test_geometry.py - that is the baseline to match exactly),
   3. looks like a plausible mistake or careless refactoring a developer could really commit (an off-by-one, a wrong operand, a dropped copy, a cached / hoisted container, a reordered condition, a changed regex, a boundary comparison, state that is not reset, ...), not sabotage that announces itself,
   4. needs SOMETHING SPECIFIC to manifest: an unusual input (a boundary value, a particular character or spelling, a particular combination of fields), a multi-step sequence of operations, a second use of an object, a particular ordering, or two cooperating sites that each look fine alone. Ordinary everyday use (the typical happy path a smoke test would run) should still behave correctly, so that the breakage would not be noticed at once.
-The three changes should affect different mechanisms / code sites (ideally different files). Prefer less obvious sites: look beyond the first function that comes to mind - state kept between calls, rarely taken branches, interactions between two features, boundary values deep inside helper functions.
+The three changes should affect different mechanisms / code sites (ideally different files); where the property allows, spread them: one on the side that parses / reads, one on the side that writes / converts, one in shared machinery (base classes, value objects, helpers, state kept on objects or modules). Prefer less obvious sites: look beyond the first function that comes to mind - state kept between calls, rarely taken branches, interactions between two features, boundary values deep inside helper functions.
 
 For each change i in (1, 2, 3) deliver, inside /tmp/wt_{pid}/_out/ :
   - patch{{i}}.diff   : `git diff` of the change against the pristine checkout (apply-able with `git apply` at the repository root; only files under pycaption/),
